@@ -661,6 +661,8 @@ impl Messages {
 pub struct CfgSites {
     /// every place a collection can start from: (file, enclosing fn, the call as written)
     pub collect_calls: Vec<(String, String, String)>,
+    /// every place that can change the length or the content of a chunk's `code` / `lines` vectors: (file, enclosing fn, what)
+    pub chunk_writes: Vec<(String, String, String)>,
     pub intern_uses: Vec<(String, String, String)>,
     pub intern_methods: Vec<String>,
     pub cfgs: Vec<(String, String, String, String, usize)>, // file, where, predicate, form, line
@@ -670,6 +672,7 @@ pub struct CfgSites {
 
 struct CfgSink {
     collect_calls: Vec<(String, String, String)>,
+    chunk_writes: Vec<(String, String, String)>,
     intern_uses: Vec<(String, String, String)>,
     intern_methods: Vec<String>,
     cfgs: Vec<(String, String, String, String, usize)>,
@@ -777,6 +780,56 @@ impl SiteSink for CfgSink {
             }
             _ => {}
         }
+        // a chunk's `code` / `lines` vectors: every method call on them that is not a known read, every assignment to them or to an
+        // element of them, every `&mut` borrow of them
+        {
+            fn vec_of(e: &Expr) -> Option<&'static str> {
+                match e {
+                    Expr::Field(f) => match &f.member {
+                        syn::Member::Named(i) if i == "code" => Some("code"),
+                        syn::Member::Named(i) if i == "lines" => Some("lines"),
+                        _ => None,
+                    },
+                    Expr::Paren(p) => vec_of(&p.expr),
+                    Expr::Reference(r) => vec_of(&r.expr),
+                    _ => None,
+                }
+            }
+            const READS: &[&str] = &["len", "as_ptr", "as_ptr_range", "iter", "get", "last", "first", "is_empty", "as_slice", "clone", "to_vec", "contains"];
+            match e {
+                Expr::MethodCall(mc) => {
+                    if let Some(v) = vec_of(&mc.receiver) {
+                        let m = mc.method.to_string();
+                        if !READS.contains(&m.as_str()) {
+                            self.chunk_writes.push((ctx.file.clone(), ctx.fn_name(), format!("{}.{}", v, m)));
+                        }
+                    }
+                }
+                Expr::Assign(a) => {
+                    if let Some(v) = vec_of(&a.left) {
+                        self.chunk_writes.push((ctx.file.clone(), ctx.fn_name(), format!("{} = ..", v)));
+                    } else if let Expr::Index(ix) = &*a.left {
+                        if let Some(v) = vec_of(&ix.expr) {
+                            self.chunk_writes.push((ctx.file.clone(), ctx.fn_name(), format!("{}[_] = ..", v)));
+                        }
+                    }
+                }
+                Expr::Binary(b) if matches!(b.op, syn::BinOp::AddAssign(_) | syn::BinOp::SubAssign(_) | syn::BinOp::MulAssign(_) | syn::BinOp::BitXorAssign(_)
+                    | syn::BinOp::BitAndAssign(_) | syn::BinOp::BitOrAssign(_) | syn::BinOp::ShlAssign(_) | syn::BinOp::ShrAssign(_) | syn::BinOp::DivAssign(_) | syn::BinOp::RemAssign(_)) => {
+                    if let Expr::Index(ix) = &*b.left {
+                        if let Some(v) = vec_of(&ix.expr) {
+                            self.chunk_writes.push((ctx.file.clone(), ctx.fn_name(), format!("{}[_] op= ..", v)));
+                        }
+                    }
+                }
+                Expr::Reference(r) if r.mutability.is_some() => {
+                    if let Some(v) = vec_of(&r.expr) {
+                        self.chunk_writes.push((ctx.file.clone(), ctx.fn_name(), format!("&mut {}", v)));
+                    }
+                }
+                _ => {}
+            }
+        }
         // the string intern table: every method called on it, and every method it has
         if let Expr::MethodCall(mc) = e {
             let recv = compact(&toks(&*mc.receiver));
@@ -860,6 +913,7 @@ impl SiteSink for CfgSink {
 pub fn cfg_sites(srcs: &[Src]) -> R<CfgSites> {
     let mut out = CfgSites {
         collect_calls: Vec::new(),
+        chunk_writes: Vec::new(),
         intern_uses: Vec::new(),
         intern_methods: Vec::new(),
         cfgs: Vec::new(),
@@ -870,6 +924,7 @@ pub fn cfg_sites(srcs: &[Src]) -> R<CfgSites> {
     for s in srcs {
         let mut sink = CfgSink {
             collect_calls: Vec::new(),
+            chunk_writes: Vec::new(),
             intern_uses: Vec::new(),
             intern_methods: Vec::new(),
             cfgs: Vec::new(),
@@ -886,6 +941,7 @@ pub fn cfg_sites(srcs: &[Src]) -> R<CfgSites> {
         }
         out.cfgs.extend(sink.cfgs);
         out.collect_calls.extend(sink.collect_calls);
+        out.chunk_writes.extend(sink.chunk_writes);
         out.intern_uses.extend(sink.intern_uses);
         for m in sink.intern_methods {
             if !out.intern_methods.contains(&m) {
@@ -982,6 +1038,13 @@ impl CfgSites {
                 .iter()
                 .map(|(f, w, c)| format!("({}, {}, {})", lean_str(f), lean_str(w), lean_str(c)))
                 .collect::<Vec<_>>(),
+        );
+        l.comment("");
+        l.comment("Every place that can change a chunk's `code` / `lines` vectors (method calls on them other than reads, assignments to them or their elements, `&mut` borrows; verif_hooks / test items stripped): (file, enclosing fn, what).");
+        l.def_list(
+            "chunkWrites",
+            "List (String × String × String)",
+            &self.chunk_writes.iter().map(|(f, w, c)| format!("({}, {}, {})", lean_str(f), lean_str(w), lean_str(c))).collect::<Vec<_>>(),
         );
         l.comment("");
         l.comment("Every method call on the string intern table (`…string_store.m(..)`; verif_hooks / test items stripped): (file, enclosing fn, method).");
